@@ -214,7 +214,7 @@ func c03Scenario(c c03Cfg, b zzvrt.Bounds) *zzvrt.Scenario {
 	}
 	var obs c03Obs
 	return &zzvrt.Scenario{
-		Before: func() { log.VerifReset(); obs = c03Obs{} },
+		Before: func() { resetAll(); obs = c03Obs{} },
 		Body:   func() { c.run(c.threads, &obs) },
 		Opts:   zzvrt.RunOpts{Bounds: b},
 		Check: func(x *zzvrt.Exec) (string, []zzvrt.Violation) {
